@@ -151,6 +151,21 @@ def rows_tile(rows, name, base, upto, closed, length=None):
     return out
 
 
+OLDER = ["H.FastaInfo.length", "H.FastaInfo.file_offset", "H.FastaInfo.residues_per_line", "H.FastaInfo.max_line_length",
+         "H.Scaffold.name", "H.Scaffold.rows", "LA.Row", "LLO.Row", "LHI.Row"]
+
+
+def older_untouched(v, b):
+    """index entries and scaffolds (with their rows) that existed before this step are not written to"""
+    r = z3.Int("r!older")
+    out = []
+    hv, hb = v.state.heap, b.state.heap
+    for name in OLDER:
+        if name in hv and name in hb and not hv[name].eq(hb[name]):
+            out.append(z3.ForAll([r], z3.Implies(r < b.alloc, hv[name][r] == hb[name][r])))
+    return z3.And(*out) if out else z3.BoolVal(True)
+
+
 def quintuple(info, lines, h, k):
     """the index entry of the record with header line h and last line k"""
     H = ln(lines, h)
@@ -308,6 +323,8 @@ def _main_inv(v, e, o):
         ("buffer", z3.Implies(i > 0, z3.And(
             z3.Not(_O(v, "seq_length").is_none), sl >= 0, buf.g_n >= 0, buf.g_pos == buf.g_n,
             sl + buf.g_n == gp_end(ln(lines, i - 1)) - smt.l_gp(H),
+            # C13: between lines the sequence buffer never holds more than buffer_size residues
+            buf.g_n <= o.buffer_size,
             z3.Implies(buf.g_n > 0, z3.And(buf.g_kind == 0, buf.g_first == smt.l_gp(H) + sl))))),
         ("region-list", z3.Implies(i > 0, z3.And(z3.Not(_O(v, "seq_regions").is_none), regs.z >= o.alloc, regs.z < v.alloc, regs.lo == 0))),
     ]
@@ -320,6 +337,7 @@ def _main_iter_post(v, b, e, o):
     i = b._it2
     closes = z3.And(hdr(b.line.z if hasattr(b.line, "z") else b.line), i > 0)
     out = [(lbl, z3.Implies(closes, f)) for lbl, f in record_done(v.idx_dict, b.idx_dict, v.asm, b.asm, lines, i - 1)]
+    out.append(("older-entries-and-scaffolds-untouched", older_untouched(v, b)))
     key = z3.String("key!idx")
     out.append(("otherwise-nothing-is-added", z3.Implies(z3.Not(closes), z3.And(
         v.asm.scaffolds.len == b.asm.scaffolds.len,
@@ -374,7 +392,8 @@ SPAN_SORT = SPAN.sort()
 
 def _final_record(v, b, o):
     lines = o.file.g_lines
-    return [(lbl, z3.Implies(z3.Not(_O(b, "name").is_none), f)) for lbl, f in record_done(v.idx_dict, b.idx_dict, v.asm, b.asm, lines, lines.len - 1)]
+    return ([(lbl, z3.Implies(z3.Not(_O(b, "name").is_none), f)) for lbl, f in record_done(v.idx_dict, b.idx_dict, v.asm, b.asm, lines, lines.len - 1)]
+            + [("older-entries-and-scaffolds-untouched", older_untouched(v, b))])
 
 
 @contract("tola.fasta.index.index_fasta_file", kind="function", properties=("C04", "C03", "C06", "C13"))
